@@ -20,12 +20,14 @@ import (
 
 // Env is what a rule sees.
 type Env struct {
-	P     *load.Program
-	C     *ir.Ctx
-	R     *report.Report
-	facts map[*ssa.Function]*ir.FuncFacts
+	P      *load.Program
+	C      *ir.Ctx
+	R      *report.Report
+	facts  map[*ssa.Function]*ir.FuncFacts
 	groles *GraphRoles
 	nroles *NodeRoles
+	aroles *AgentRoles
+	anySite bool // splitOnCall accepts helpers with several call sites (expandBound)
 }
 
 func NewEnv(p *load.Program, r *report.Report) *Env {
@@ -93,7 +95,10 @@ func (e *Env) uniqueSites() map[*ssa.Function]ssa.CallInstruction {
 			continue
 		}
 		// dynamic callers (interface dispatch, function tables) in the call graph
-		if n := e.P.CG.Nodes[f]; n != nil {
+		// (only a method can be called dynamically without being used as a value:
+		// for plain functions the address-taken test above is exact, and the
+		// signature-based call graph would only add spurious callers)
+		if n := e.P.CG.Nodes[f]; n != nil && f.Signature.Recv() != nil {
 			dyn := false
 			for _, ed := range n.In {
 				if ed.Site != nil && ed.Site != ss[0] && e.P.Funcs[ed.Caller.Func] {
@@ -243,11 +248,36 @@ func (e *Env) FactsStr(prefix string, ls []ir.NLit) string {
 // IsFieldRead reports whether v reads the access path `<root>.<dotted suffix>`;
 // root==nil accepts any root.
 func (e *Env) IsFieldRead(v ssa.Value, root ssa.Value, suffix string) bool {
-	p, ok := e.C.PathOf(v)
+	p, ok := e.pathThroughParams(v)
 	if !ok || !p.Suffix(suffix) {
 		return false
 	}
 	return root == nil || SameValue(p.Root, root)
+}
+
+// pathThroughParams is PathOf in the virtual inlining view: a path rooted at a
+// parameter of a single-call-site helper continues with the path of the argument
+// (`name` inside `find(nodes, name)` called as `find(x.Nodes, req.Body.Step)` is
+// req.Body.Step).
+func (e *Env) pathThroughParams(v ssa.Value) (ir.Path, bool) {
+	var fields []string
+	for d := 0; d < 5; d++ {
+		p, ok := e.C.PathOf(v)
+		root := v
+		if ok {
+			fields = append(append([]string{}, p.Fields...), fields...)
+			root = p.Root
+		}
+		nr := ir.Deep(root)
+		if nr == ir.Resolve(root) || nr == root {
+			if len(fields) == 0 {
+				return ir.Path{}, false
+			}
+			return ir.Path{Root: root, Fields: fields}, true
+		}
+		v = nr
+	}
+	return ir.Path{}, false
 }
 
 // SameValue compares two SSA values, looking through loads of the same
@@ -386,7 +416,10 @@ func (e *Env) Reaches(from *ssa.Function, to func(*ssa.Function) bool) bool {
 		for _, a := range f.AnonFuncs {
 			stack = append(stack, a)
 		}
-		if n := e.P.CG.Nodes[f]; n != nil {
+		// (only a method can be called dynamically without being used as a value:
+		// for plain functions the address-taken test above is exact, and the
+		// signature-based call graph would only add spurious callers)
+		if n := e.P.CG.Nodes[f]; n != nil && f.Signature.Recv() != nil {
 			for _, ed := range n.Out {
 				stack = append(stack, ed.Callee.Func)
 			}
@@ -484,7 +517,10 @@ func (e *Env) ReachesRepo(from *ssa.Function, to func(*ssa.Function) bool) bool 
 					continue
 				}
 				if c.IsInvoke() && strings.HasPrefix(ir.NamedType(c.Value.Type()), load.ModulePath) {
-					if n := e.P.CG.Nodes[f]; n != nil {
+					// (only a method can be called dynamically without being used as a value:
+		// for plain functions the address-taken test above is exact, and the
+		// signature-based call graph would only add spurious callers)
+		if n := e.P.CG.Nodes[f]; n != nil && f.Signature.Recv() != nil {
 						for _, ed := range n.Out {
 							if ed.Site == ci {
 								stack = append(stack, ed.Callee.Func)
